@@ -106,11 +106,12 @@ PROPS['C15'] = dict(
 
 PROPS['C20'] = dict(
     level='model_checking',
-    mc=[xixi_mc('MC_Backup', ['QuiescentLiveEqualsRecovered', 'MapSemantics', 'RecoveredOK'],
-                quick=dict(MaxOps=4), thorough=dict(MaxOps=5))],
+    mc=[xixi_mc('MC_Backup', ['QuiescentLiveEqualsRecovered', 'MapSemantics', 'RecoveredOK', 'BackupOpensToSnapshot'],
+                Features='{"batch", "merge", "restart", "delete", "backup"}', Vals='{1, 2}', BigVals='{}', MaxBatch=2,
+                quick=dict(MaxOps=3), thorough=dict(MaxOps=4))],
     traces=[dict(profile='backup', spec='EngineTrace', enforce=['backup', 'res', 'bres', 'open', 'vals', 'keys', 'scan', 'index'],
                  quick_seeds=1, thorough_seeds=2)],
-    assumptions=E_ASSUME + ['in the model a backup is the logical content of every file without the lock; QuiescentLiveEqualsRecovered states that recovering such a copy yields the live view',
+    assumptions=E_ASSUME + ['in the model Backup copies the logical content of every data file and the hint file (no lock, no merge directory); BackupOpensToSnapshot: a plain recovery of the last copy yields the view at the call, whatever the source did since',
                             'an engine death (SIGBUS) after a backup ends the driver; the parent appends a died event, which no specification action accepts'],
 )
 
